@@ -50,7 +50,7 @@ Section Scalar.
   Lemma delta_spec s eo d : (tol < s - Yf eo -> Yf eo <= Yf (ubR s eo)) ->
     @delta_eqps_gen R NumR Yf dYf mu tol s eo = Some d ->
     (s - Yf eo <= tol /\ d = 0)
-    \/ (tol < s - Yf eo /\ eo <= eo + d <= ubR s eo /\ (Rabs (residR s eo (eo + d)) < tol \/ residR s eo (eo + d) = 0)).
+    \/ (tol < s - Yf eo /\ eo <= eo + d <= ubR s eo /\ Rabs (residR s eo (eo + d)) <= tol).
   Proof.
     intros Hmono. unfold delta_eqps_gen.
     destruct (is_yielding Yf tol s eo) eqn:Ey.
@@ -61,19 +61,22 @@ Section Scalar.
       destruct x as [v|]; [|discriminate]. inversion H; subst d; clear H.
       replace (eo + (v - eo)) with v by ring.
       assert (Hub : eo < ubR s eo). { unfold ubR. assert (0 < (s - Yf eo) / (3 * mu)); [|lra]. apply Rdiv_lt_0_compat; lra. }
-      pose proof (result_contract _ _ _ _ _ _ _ _ _ _ _ _ _ _ E) as (Hx & Hcv & _ & Hr1 & _ & _ & HF).
+      pose proof (result_contract _ _ _ _ _ _ _ _ _ _ _ _ _ _ E) as (Hx & Hcv & _ & Hr1 & _ & _ & _ & _ & HF).
       rewrite !resid_R in *.
-      destruct (Req_EM_T (residR s eo (ubR s eo)) 0) as [Hz|Hnz].
-      + (* perfect plasticity / flat hardening: the upper end is an exact root and is returned *)
-        assert (Hz' : resid Yf mu s eo (ubR s eo) = 0) by (rewrite resid_R; exact Hz).
-        destruct (Hr1 Hz') as (Hv & _). inversion Hv; subst v. split; [lra|]. right. exact Hz.
-      + assert (Hb : resid Yf mu s eo eo * resid Yf mu s eo (ubR s eo) < 0).
-        { rewrite !resid_R, resid_lb, resid_ub. rewrite resid_ub in Hnz. nra. }
+      destruct (Rle_dec (Rabs (residR s eo (ubR s eo))) tol) as [Hz|Hnz].
+      + (* flat hardening (perfect plasticity, saturated Voce): the residual at the upper end is within the tolerance and the
+           upper end itself is returned (end-point rule of the repaired root finder) *)
+        assert (Hz' : Rabs (resid Yf mu s eo (ubR s eo)) <= tol) by (rewrite resid_R; exact Hz).
+        destruct (Hr1 Hz') as (Hv & _). inversion Hv; subst v. split; [lra|exact Hz].
+      + assert (Hpos : tol < residR s eo (ubR s eo)).
+        { rewrite resid_ub in *. rewrite Rabs_pos_eq in Hnz by lra. lra. }
+        assert (Hb : resid Yf mu s eo eo * resid Yf mu s eo (ubR s eo) < 0).
+        { rewrite !resid_R, resid_lb. nra. }
         destruct (result_in_bracket _ _ _ _ _ _ _ _ _ _ _ _ _ _ Hb E) as ((Hlo & Hhi) & _).
         rewrite Rmin_left in Hlo by lra. rewrite Rmax_right in Hhi by lra. split; [lra|].
         assert (Hc : cv = true) by (apply Hx; discriminate).
         assert (Hw : w = Converged) by (apply Hcv; exact Hc). subst cv w.
-        destruct (converged_small_residual _ _ _ _ _ _ _ _ _ _ _ _ (Rle_refl 0) Hb E) as [A|A]; rewrite resid_R in A; auto.
+        pose proof (converged_small_residual _ _ _ _ _ _ _ _ _ _ _ _ (Rle_refl 0) Htol Hb E) as A. rewrite resid_R in A. exact A.
     - intros H. inversion H; subst d. left. split; [|unfold_num; q2r; reflexivity].
       apply Rnot_lt_le. intros Hc. apply yielding_spec in Hc. congruence.
   Qed.
@@ -91,8 +94,8 @@ Section Scalar.
     intros Hm H. destruct (delta_spec s eo d Hm H) as [(A & ->)|(A & _ & B)].
     - rewrite Rmult_0_r, Rminus_0_r, Rplus_0_r. split; [exact A|intros; lra].
     - assert (E : s - 3 * mu * d - Yf (eo + d) = - residR s eo (eo + d)) by (unfold residR; ring).
-      rewrite E, Rabs_Ropp. destruct B as [B|B]; [|rewrite B, Rabs_R0; split; intros; lra].
-      split; [|intros; lra]. pose proof (Rle_abs (- residR s eo (eo + d))) as C. rewrite Rabs_Ropp in C. lra.
+      rewrite E, Rabs_Ropp. split; [|intros; exact B].
+      pose proof (Rle_abs (- residR s eo (eo + d))) as C. rewrite Rabs_Ropp in C. lra.
   Qed.
 
   (* idempotence (rate-independent: the same Yf after committing the state): the trial stress at the same deformation is
